@@ -41,14 +41,15 @@ func (c *checker) flush(files map[string]string) {
 
 // want is the expected shape of a type usage.
 type want struct {
-	Seq    bool
-	Prim   string // STRING ... ; "" for reference/inline
-	BW     int
-	AltRef string // accepted alternative spelling as a reference (uuid)
-	RefKey string // expected compiled name of the referenced type
-	RefCol string // SQL: referenced column
-	Inline *oaSchema
-	Desc   string
+	Seq     bool
+	Prim    string // STRING ... ; "" for reference/inline
+	BW      int
+	AltRef  string // accepted alternative spelling as a reference (uuid)
+	RefKey  string // expected compiled name of the referenced type
+	RefName string // its name in the foreign document
+	RefCol  string // SQL: referenced column
+	Inline  *oaSchema
+	Desc    string
 }
 
 func (w want) String() string {
